@@ -47,7 +47,10 @@ manifest = {
               'source_commits': [], 'add_only': True},
     'engines': [{'name': 'hypothesis', 'path': 'vt/engine.py', 'serves_properties': [c['property_id'] for c in checks],
                  'kind_free_text': 'Hypothesis 6.168 strategies and rule based state machines, driven by a '
-                                   'collect-then-shrink engine; bounded exhaustive enumeration of small finite domains'}],
+                                   'collect-then-shrink engine; bounded exhaustive enumeration of small finite domains'},
+                {'name': 'atheris', 'path': 'vt/fuzz/c20_atheris.py', 'serves_properties': ['C20'],
+                 'kind_free_text': 'coverage guided fuzzing (atheris 3.1 / libFuzzer) of binary_file_type, thorough tier of C20: '
+                                   'deviations are saved and replayed through the C20 oracle'}],
     'checks': checks,
     'not_applicable': na,
     'notes': 'Single entry point ./check Cxx [--tier quick|thorough] [--replay file]; VERIF_SEED seeds every generator. '
